@@ -574,7 +574,7 @@ pub fn run_server_case(prop: &'static str, case: &ServerCase) -> Verdict {
             );
         }
         ExecEnd::Panic(m) => return fail(format!("{}/server/panic", prop), m.clone()),
-        ExecEnd::StepBound => return Verdict::Inconclusive("step bound exceeded".into()),
+        ExecEnd::StepBound => return Verdict::Inconclusive(format!("step bound exceeded in phase {} (drop mode {})", ph, case.drop_mode)),
     }
     if let Some((k, d)) = o.violations.first() {
         return fail(format!("{}/server/{}", prop, k), d.clone());
